@@ -321,6 +321,12 @@ class UnitLib(Lib):
                 if pv is not None and pv.src:
                     v = v.with_(src=pv.src)
                 return v
+        if a == "stderr" and isinstance(n.value, ast.Subscript):
+            # the 1-sigma error of xo / yo is a length along that axis
+            sk = it.strkey(n.value.slice)
+            if sk and sk[1:] in ("xo", "yo"):
+                return U(idx=Idx("row" if sk[1:] == "xo" else "col", None,
+                                 None))
         if base.cls == "Beam" and base.elts is not None:
             i = {"a": 0, "b": 1, "pa": 2}.get(a)
             if i is not None:
@@ -1256,7 +1262,7 @@ class ContractObs(Observer):
                 self.sites["store"] += 1
                 want = SRC_FIELDS[target.attr]
                 t = [s for s in val.src if s.startswith("idx!")]
-                if t and target.attr in ("ra", "dec"):
+                if t and target.attr in ("ra", "dec", "err_ra", "err_dec"):
                     self.add(it, stmt, "sink",
                              "catalogue position %s is computed from "
                              "mis-typed pixel indices: %s" %
